@@ -122,28 +122,33 @@ def rule_guard(ctx):
     for name in ("e_eq_ice_mk", "e_eq_water_mk"):
         f = ctx.func(ATM, name)
         T = f.params[0]
+        # the first raise in front of the computation, under whatever spelling of its condition (if c: raise / if not c: pass else: raise / guard helper)
+        from ..flow import guard_chain
         guard = None
-        for st in f.body:
-            if isinstance(st, ast.If) and any(isinstance(s, ast.Raise) for s in st.body):
-                guard = st
-                break
-            if isinstance(st, ast.Return):
-                break
+        first_ret = next((s_ for s_ in walk_no_nested(f.node) if isinstance(s_, ast.Return)), None)
+        raises = [s_ for s_ in walk_no_nested(f.node) if isinstance(s_, ast.Raise) and (first_ret is None or s_.lineno <= first_ret.lineno or True)]
+        from ..cfg import stmt_before
+        raises = [r_ for r_ in raises if first_ret is None or stmt_before(f.node, r_, first_ret)]
         ok = False
         fact = "no raising guard before the computation"
-        if guard is not None:
-            rs = [s for s in guard.body if isinstance(s, ast.Raise)][0]
+        if raises:
+            rs = raises[0]
+            guard = rs
+            chain = guard_chain(rs, implicit=True)
+            if not chain:
+                raise AnalysisError("%s: unconditional raise" % name)
             is_value = rs.exc is not None and "ValueError" in norm(rs.exc)
             vals = {}
-            for tv in (-1, 0, 1):
-                vals[tv] = bool(Interp({T: tv}).ev(guard.test))
-            red = guard.test.func if isinstance(guard.test, ast.Call) else None
-            red_name = (dotted(red) or "").split(".")[-1] if red is not None else None
-            array_ok = red_name in ("any", None) or (red_name in ("min", "amin", "nanmin"))
-            ok = is_value and vals == {-1: True, 0: True, 1: False} and array_ok and red_name != "all"
-            if red_name == "all":
-                why_all = " [np.all: an array is only rejected when EVERY element is non-positive]"
-            fact = "if %s: raise %s  -> truth for T=-1,0,1: %s%s" % (norm(guard.test), norm(rs.exc) if rs.exc else None, vals, locals().get("why_all", ""))
+            try:
+                for tv in (-1, 0, 1):
+                    vals[tv] = all(bool(Interp({T: tv}).ev(t_)) == pol_ for t_, pol_ in chain)
+            except AnalysisError as e_:
+                raise AnalysisError("%s: guard outside the model: %s" % (name, e_))
+            reds = {(dotted(c_.func) or "").split(".")[-1] for t_, _ in chain for c_ in ast.walk(t_) if isinstance(c_, ast.Call)}
+            array_ok = reds <= {"any", "min", "amin", "nanmin"}
+            ok = is_value and vals == {-1: True, 0: True, 1: False} and array_ok
+            why_all = " [np.all: an array is only rejected when EVERY element is non-positive]" if "all" in reds else ""
+            fact = "raise %s under %s  -> truth for T=-1,0,1: %s%s" % (norm(rs.exc) if rs.exc else None, [("%s" if pol_ else "not (%s)") % norm(t_) for t_, pol_ in chain], vals, why_all)
         ctx.ob("%s.guard" % name, ok, fact, "raises ValueError exactly when some T <= 0 (0 K included)", node=guard or f.node, func=f)
         rets = [s for s in f.body if isinstance(s, ast.Return)]
         okr = len(rets) == 1 and isinstance(rets[0].value, ast.Call) and dotted(rets[0].value.func) in ("np.exp", "numpy.exp")
